@@ -22,9 +22,9 @@ def fail(node, why):
     raise Unsupported(f"line {getattr(node, 'lineno', '?')}: {why}: {ast.dump(node)[:220]}")
 
 COQ_TY = {"nat": "nat", "optnat": "(option nat)", "bool": "bool", "space": "space", "spacelist": "(list space)", "natlist": "(list nat)",
-          "key": "BinNums.N", "unit": "unit", "pn": "bool"}
+          "key": "BinNums.N", "unit": "unit", "pn": "bool", "pnobj": "unit", "idspacelist": "(list (nat * space))"}
 DFLT = {"nat": "0", "optnat": "(@None nat)", "bool": "false", "space": "(@nil (option bool))", "spacelist": "(@nil space)",
-        "natlist": "(@nil nat)", "key": "0%N", "pn": "false"}
+        "natlist": "(@nil nat)", "key": "0%N", "pn": "false", "pnobj": "Datatypes.tt", "idspacelist": "(@nil (nat * space))"}
 
 # method -> arguments (after self), result type, local types.  "alias" locals are Python names bound to a node dict.
 FUNCS = [
@@ -42,11 +42,21 @@ FUNCS = [
     dict(name="node_is_minimal", args=[("node_id", "nat")], ret="bool", locs={"is_leaf": "bool"}, loopvars={}, alias=[]),
     dict(name="__len__", args=[], ret="nat", locs={}, loopvars={}, alias=[]),
     dict(name="root", args=[], ret="nat", locs={}, loopvars={}, alias=[]),
+    # ---- group 2 (PySrcCore2.v): skip operations, depth, reclaim_node_data.  tape = the answer of trappist(problem="min")
+    dict(name="skip_to_minimal", group=2, tape=True, args=[("node_id", "nat")], ret="bool",
+         locs={"pn": "pnobj", "minimal_traps": "spacelist", "m_id": "nat"}, loopvars={"m_trap": "space"}, alias=["node", "m_data"]),
+    dict(name="skip_remaining", group=2, tape=True, args=[], ret="nat",
+         locs={"pn": "pnobj", "root_space": "space", "minimal_traps": "spacelist", "trap_with_id": "idspacelist", "m_id": "nat",
+               "skipped_nodes": "nat", "skip_edges": "nat"},
+         loopvars={"m_trap": "space", "node_id": "nat", "m_id": "nat"}, alias=["m_data", "node"]),
+    dict(name="depth", group=2, args=[], ret="nat", locs={"d": "nat"}, loopvars={"node": "nat"}, alias=[]),
+    dict(name="reclaim_node_data", group=2, args=[], ret="unit", locs={}, loopvars={"node_id": "nat"}, alias=["data"]),
 ]
 METHODS = {f["name"]: f for f in FUNCS}
 EXC = {"RuntimeError": "ErrMotifLimit", "KeyError": "ErrKey", "AssertionError": "ErrAssert"}
 # node dict field -> (type, getter, setter-of-a-constant)
-FIELD_GET = {"depth": ("nat", "n_depth"), "expanded": ("bool", "n_exp"), "space": ("space", "n_space")}
+FIELD_GET = {"depth": ("nat", "n_depth"), "expanded": ("bool", "n_exp"), "space": ("space", "n_space"), "attractor_seeds": ("opttag", "n_seeds")}
+NOOP_FIELDS = ("percolated_petri_net", "percolated_network", "percolated_nfvs")
 NONE_FIELDS = {"attractor_seeds": "set_seeds", "attractor_candidates": "set_cands", "attractor_sets": "set_sets"}
 ADD_NODE_KW = {"depth": 0, "expanded": False, "percolated_network": None, "percolated_petri_net": None, "percolated_nfvs": None,
                "attractor_candidates": None, "attractor_seeds": None, "attractor_sets": None, "skipped": None}
@@ -65,7 +75,10 @@ def is_config(e, key):
 class Fn:
     def __init__(self, spec):
         self.spec = spec
-        self.env = dict(spec["args"]); self.env.update(spec["locs"]); self.env.update(spec["loopvars"])
+        self.env = dict(spec["args"]); self.env.update(spec["loopvars"]); self.env.update(spec["locs"])
+        for k, v in spec["loopvars"].items():
+            if k in spec["locs"] and spec["locs"][k] != v: raise Unsupported(f"{spec['name']}: loop variable {k} typed differently from the local")
+        self.in_loop_top = False
         self.locs = spec["locs"]
         self.alias = {}            # python name -> Coq term of the node id it aliases
         self.state = []
@@ -156,6 +169,10 @@ class Fn:
                     return self.map1((t, r, "nat"), lambda x: f"(pnc {x})", "pn")
                 fail(e, "node field")
             fail(e, "subscript")
+        if isinstance(e, ast.Subscript) and isinstance(e.ctx, ast.Load) and const(e.slice, 0):
+            a = self.expr(e.value)
+            if a[2] != "spacelist" or a[1]: fail(e, "l[0]")
+            return (f"(hd_error {a[0]})", True, "space")                       # IndexError on the empty list
         if isinstance(e, ast.Subscript) and isinstance(e.ctx, ast.Load):
             pc = self.dag_edges_item(e)
             if pc is not None:
@@ -196,6 +213,8 @@ class Fn:
                     res = self.map1(a, lambda x: f"(match {x} with None => true | Some _ => false end)", "bool")
                 elif a[2] == "pn":
                     res = self.map1(a, lambda x: f"(negb {x})", "bool")          # pnc i = true: a percolated net is cached
+                elif a[2] == "opttag":
+                    res = self.map1(a, lambda x: f"(match {x} with None => true | Some _ => false end)", "bool")
                 elif a[2] == "edge":
                     res = (f"(omap (fun _ => false) {a[0]})", True, "bool")     # an edge attribute dict is never None
                 else: fail(e, "`is None` on a value that is never None")
@@ -206,6 +225,10 @@ class Fn:
                 if k[2] != "key": fail(e, "key type")
                 res = self.map1(k, lambda x: f"(idx_mem {x} (p_idx w_))", "bool")
                 return res if isinstance(op, ast.In) else self.map1(res, lambda x: f"(negb {x})", "bool")
+            if isinstance(op, ast.Eq):
+                a, b = self.expr(l), self.expr(r)
+                if a[2] == "space" and b[2] == "space":
+                    return self.map2(a, b, lambda x, y: f"(eqb_space {x} {y})", "bool")
             fn = {ast.GtE: lambda x, y: f"(Nat.leb {y} {x})", ast.Gt: lambda x, y: f"(Nat.ltb {y} {x})",
                   ast.LtE: lambda x, y: f"(Nat.leb {x} {y})", ast.Lt: lambda x, y: f"(Nat.ltb {x} {y})",
                   ast.Eq: lambda x, y: f"(Nat.eqb {x} {y})"}.get(type(op))
@@ -217,7 +240,11 @@ class Fn:
             a, b = self.expr(e.left), self.expr(e.right)
             if a[2] != "space" or b[2] != "space": fail(e, "| on non-dict values")
             return self.map2(a, b, lambda x, y: f"(space_union {x} {y})", "space")
-        if isinstance(e, ast.List) and not e.elts and want in ("natlist", "spacelist"):
+        if isinstance(e, ast.Tuple) and len(e.elts) == 2:
+            a, b = self.nat_arg(e.elts[0]), self.expr(e.elts[1])
+            if a[1] or b[1] or b[2] != "space": fail(e, "tuple")
+            return (f"({a[0]}, {b[0]})", False, "idspace")
+        if isinstance(e, ast.List) and not e.elts and want in ("natlist", "spacelist", "idspacelist"):
             return (DFLT[want], False, want)
         if isinstance(e, ast.ListComp):
             if len(e.generators) != 1: fail(e, "comprehension")
@@ -272,6 +299,22 @@ class Fn:
                 return ("(sources_b N)", False, "natlist")
             if isinstance(f, ast.Name) and f.id == "trappist":
                 return self.trappist(e)
+            if isinstance(f, ast.Attribute) and f.attr in ("node_percolated_petri_net", "node_percolated_network") and is_self(f.value) \
+                    and len(e.args) == 1 and len(e.keywords) == 1 and e.keywords[0].arg == "compute" and const(e.keywords[0].value, True):
+                a = self.nat_arg(e.args[0])
+                if a[1]: fail(e, "raising node id")
+                self.last_pn_node = a[0]
+                return ("Datatypes.tt", False, "pnobj")          # the cache side effect is not modelled (PyLibCore.v)
+            if isinstance(f, ast.Attribute) and f.attr == "node_ids" and is_self(f.value) and not e.args and not e.keywords:
+                return ("(seq 0 (size (p_sd w_)))", False, "natlist")
+            if isinstance(f, ast.Attribute) and f.attr == "nodes" and is_self(f.value, "dag") and not e.args and not e.keywords:
+                return ("(seq 0 (size (p_sd w_)))", False, "natlist")     # the node ids (a set in Python: only used order-independently)
+            if isinstance(f, ast.Name) and f.id == "max" and len(e.args) == 2 and not e.keywords:
+                return self.map2(self.nat_arg(e.args[0]), self.nat_arg(e.args[1]), lambda x, y: f"(Nat.max {x} {y})", "nat")
+            if isinstance(f, ast.Name) and f.id == "is_subspace" and len(e.args) == 2 and not e.keywords:
+                a, b = self.expr(e.args[0]), self.expr(e.args[1])
+                if a[2] != "space" or b[2] != "space": fail(e, "is_subspace arguments")
+                return self.map2(a, b, lambda x, y: f"(subspace {x} {y})", "bool")
             if isinstance(f, ast.Name) and f.id == "sorted" and len(e.args) == 1 and len(e.keywords) == 1 and e.keywords[0].arg == "key":
                 lam = e.keywords[0].value
                 ok = isinstance(lam, ast.Lambda) and len(lam.args.args) == 1 and isinstance(lam.body, ast.Call) \
@@ -284,6 +327,12 @@ class Fn:
 
     def trappist(self, e):
         kw = {k.arg: k.value for k in e.keywords}
+        if not e.args and set(kw) == {"network", "problem"} and const(kw["problem"], "min"):
+            net = kw["network"]
+            if not self.spec.get("tape"): fail(e, "trappist(min) in a function without a tape")
+            if not (isinstance(net, ast.Name) and self.env.get(net.id) == "pnobj" and net.id in self.pn_of): fail(e, "trappist(min) network")
+            # the percolated net / network of node nid: the minimal trap spaces inside that node's space, in the solver's order = the tape
+            return (f"(trappist_min N (n_space (get (p_sd w_) {self.pn_of[net.id]})) tape)", False, "spacelist")
         if len(e.args) != 1 or set(kw) - {"problem", "ensure_subspace", "optimize_source_variables", "solution_limit"}: fail(e, "trappist arguments")
         if not const(kw.get("problem"), "max"): fail(e, "trappist problem")
         if "optimize_source_variables" not in kw or "solution_limit" not in kw: fail(e, "trappist: sources and limit must be given")
@@ -371,6 +420,11 @@ class Fn:
         if isinstance(s, ast.Raise):
             if not (isinstance(s.exc, ast.Call) and isinstance(s.exc.func, ast.Name) and s.exc.func.id in EXC): fail(s, "raise")
             return f"(CRaise w_ (RRaised {EXC[s.exc.func.id]}))"
+        if isinstance(s, ast.Assert) and isinstance(s.test, ast.UnaryOp) and isinstance(s.test.op, ast.Not) and self.method_call(s.test.operand) is not None:
+            term, m = self.method_call(s.test.operand)
+            if m["ret"] != "bool": fail(s, "assert on a non-bool method")
+            return (f"(c_call {term} (fun w_ r_ => match r_ with Some b_ => if negb b_ then {self.block(rest)} "
+                    f"else CRaise w_ (RRaised ErrAssert) | None => CBad w_ end))")
         if isinstance(s, ast.Assert):
             t, r, ty = self.expr(s.test)
             if ty != "bool": fail(s, "assert type")
@@ -383,7 +437,11 @@ class Fn:
                 tgt, val = s.targets[0], s.value
             else:
                 tgt, val = s.target, s.value
-            if isinstance(s, ast.AugAssign): fail(s, "augmented assignment")
+            if isinstance(s, ast.AugAssign):
+                if not (isinstance(tgt, ast.Name) and self.locs.get(tgt.id) == "nat" and isinstance(s.op, ast.Add)): fail(s, "augmented assignment")
+                self.need_state(tgt.id, s)
+                v = self.nat_arg(val)
+                return self.guard(f"(omap (fun b_ => {tgt.id} + b_) {v[0]})" if v[1] else f"({tgt.id} + {v[0]})", v[1], tgt.id, self.block(rest))
             if val is None: fail(s, "declaration without value")
             # X[...] = value
             if isinstance(tgt, ast.Subscript):
@@ -406,8 +464,12 @@ class Fn:
                     elif f in NONE_FIELDS:
                         if not const(val, None): fail(s, "cache field set to something else than None")
                         v = ("None", False, "none"); setter = lambda x, f=f: f"(fun y_ => {NONE_FIELDS[f]} y_ None)"
-                    elif f == "percolated_petri_net":
-                        if not const(val, None): fail(s, "percolated_petri_net set to something else than None")
+                    elif f == "skipped":
+                        v = self.expr(val)
+                        if v[2] != "bool": fail(s, "skipped flag type")
+                        setter = lambda x: f"(fun y_ => set_skip y_ {x})"
+                    elif f in NOOP_FIELDS:
+                        if not const(val, None): fail(s, f"{f} set to something else than None")
                         return self.block(rest)                    # not modelled (PyLibCore.v)
                     else: fail(s, "node field")
                     k = self.block(rest)
@@ -423,8 +485,10 @@ class Fn:
                 nd = self.node_of(val)
                 if nd is None or nd[1]: fail(s, "alias of something that is not a node dict")
                 if name in self.alias: fail(s, "alias rebound")
-                self.alias[name] = nd[0]
-                return self.block(rest)
+                self.alias_n = getattr(self, "alias_n", 0) + 1
+                v = f"{name}_id{self.alias_n}_"
+                self.alias[name] = v                  # the id is captured now: later assignments to the id variable do not move the alias
+                return f"(let {v} := {nd[0]} in {self.block(rest)})"
             if name not in self.locs: fail(s, "assignment to an undeclared local")
             self.need_state(name, s)
             lty = self.locs[name]
@@ -434,6 +498,9 @@ class Fn:
                 if m["ret"] != lty: fail(s, "method result type")
                 return f"(c_call {term} (fun w_ r_ => match r_ with Some {name} => {self.block(rest)} | None => CBad w_ end))"
             t, r, ty = self.expr(val, want=lty)
+            if lty == "pnobj":
+                if ty != "pnobj": fail(s, "percolated net local")
+                self.pn_of[name] = self.last_pn_node
             if lty == "pn":
                 nd = val.value if isinstance(val, ast.Subscript) else None
                 nid = self.node_of(nd) if nd is not None else None
@@ -478,25 +545,59 @@ class Fn:
                 p, ch, m = self.nat_arg(pc[0]), self.nat_arg(pc[1]), self.expr(c.args[0])
                 if p[1] or ch[1] or m[1] or m[2] != "space": fail(s, "append arguments")
                 return f"(match dag_append_motif w_ {p[0]} {ch[0]} {m[0]} with Some w_ => {self.block(rest)} | None => CRaise w_ (RRaised ErrKey) end)"
+            if isinstance(f, ast.Attribute) and f.attr == "append" and isinstance(f.value, ast.Name) and self.locs.get(f.value.id) == "idspacelist" \
+                    and len(c.args) == 1 and not c.keywords:
+                self.need_state(f.value.id, s)
+                a = self.expr(c.args[0])
+                if a[2] != "idspace" or a[1]: fail(s, "append element")
+                return self.guard(f"({f.value.id} ++ [{a[0]}])", False, f.value.id, self.block(rest))
             fail(s, "call statement")
+        if isinstance(s, ast.If) and not s.orelse and s.body and isinstance(s.body[-1], ast.Continue):
+            # `if c: A; continue` followed by REST, directly in a loop body  ==  `if c: A  else: REST`
+            if not self.in_loop_top: fail(s, "continue outside the top level of a loop body")
+            c, r, ty = self.expr(s.test)
+            if ty != "bool": fail(s, "condition type")
+            saved = (dict(self.env), dict(self.alias), dict(self.pn_of))
+            b1 = self.block(s.body[:-1])
+            self.env, self.alias, self.pn_of = dict(saved[0]), dict(saved[1]), dict(saved[2])
+            b2 = self.block(rest)
+            self.env, self.alias, self.pn_of = saved
+            return f"(match {c} with Some c_ => if c_ then {b1} else {b2} | None => CBad w_ end)" if r else f"(if {c} then {b1} else {b2})"
         if isinstance(s, ast.If):
             c, r, ty = self.expr(s.test)
             if ty != "bool": fail(s, "condition type")
             saved = (dict(self.env), dict(self.alias), dict(self.pn_of))
+            top, self.in_loop_top = self.in_loop_top, False
             b1 = self.block(s.body)
             self.env, self.alias, self.pn_of = dict(saved[0]), dict(saved[1]), dict(saved[2])
             b2 = self.block(s.orelse)
             self.env, self.alias, self.pn_of = saved
+            self.in_loop_top = top
             head = f"(match {c} with Some c_ => if c_ then {b1} else {b2} | None => CBad w_ end)" if r else f"(if {c} then {b1} else {b2})"
             return self.seq(head, rest)
         if isinstance(s, ast.For):
             if s.orelse: fail(s, "for-else")
-            if not isinstance(s.target, ast.Name) or s.target.id not in self.spec["loopvars"]: fail(s, "loop variable")
             it = self.expr(s.iter)
-            want = {"nat": "natlist", "space": "spacelist"}[self.spec["loopvars"][s.target.id]]
-            if it[2] != want or it[1]: fail(s, "loop iterable")
+            if it[1]: fail(s, "raising loop iterable")
+            if isinstance(s.target, ast.Name):
+                names = [s.target.id]
+                if s.target.id not in self.spec["loopvars"]: fail(s, "loop variable")
+                want = {"nat": "natlist", "space": "spacelist"}[self.spec["loopvars"][s.target.id]]
+                itpat = s.target.id
+            elif isinstance(s.target, ast.Tuple) and len(s.target.elts) == 2 and all(isinstance(x, ast.Name) for x in s.target.elts):
+                names = [x.id for x in s.target.elts]
+                if [self.spec["loopvars"].get(n) for n in names] != ["nat", "space"]: fail(s, "tuple loop variables")
+                want = "idspacelist"
+                itpat = f"'({names[0]}, {names[1]})"
+            else: fail(s, "loop target")
+            if it[2] != want: fail(s, "loop iterable type")
+            saved = (dict(self.env), dict(self.alias), dict(self.pn_of))
+            top, self.in_loop_top = self.in_loop_top, True
             body = self.block(s.body)
-            head = (f"(c_for {it[0]} (fun {s.target.id} w_ (st_ : {self.st_ty()}) => let {self.st_pat()} := st_ in "
+            self.in_loop_top = top
+            self.env, self.alias, self.pn_of = saved
+            # a loop variable that is also a threaded local is assigned by the loop (binding order: state first, then the item)
+            head = (f"(c_for {it[0]} (fun it_ w_ (st_ : {self.st_ty()}) => let {self.st_pat()} := st_ in let {itpat} := it_ in "
                     f"({body} : {self.flow_ty()})) w_ {self.st_tuple()})")
             return self.seq(head, rest)
         fail(s, "unsupported statement")
@@ -529,18 +630,22 @@ def pretty(t):
     out.append(line)
     return "\n".join(out)
 
-def translate():
-    parts = ["(* PySrcCore.v -- GENERATED by tools/py2coq_core.py from the current source of /repo/biobalm/succession_diagram.py; do not edit.",
-             "   Each definition is the translation of the SuccessionDiagram method of the same name (embedding: PyLibCore.v).",
-             "   PySrcCoreFacts.v proves them equal to the model's functions of Diagram.v. *)",
+def translate(group):
+    fname = "PySrcCore.v" if group == 1 else "PySrcCore2.v"
+    parts = [f"(* {fname} -- GENERATED by tools/py2coq_core.py from the current source of /repo/biobalm/succession_diagram.py; do not edit.",
+             "   Each definition is the translation of the SuccessionDiagram method of the same name (embedding: PyLibCore.v" + (", PyLibCore2.v" if group == 2 else "") + ").",
+             "   PySrcCoreFacts.v / PySrcCore2Facts.v prove them equal to the model's functions of Diagram.v. *)",
              "From Coq Require Import List Bool Arith NArith.", "Import ListNotations.",
-             "From BB Require Import BN Brute Diagram PyLib PyLibCore.", ""]
+             "From BB Require Import BN Brute Diagram PyLib PyLibCore" + (" PyLibCore2 PySrcCore" if group == 2 else "") + ".", ""]
     mod = ast.parse(open(os.path.join(REPO, SRC)).read())
     classes = [n for n in mod.body if isinstance(n, ast.ClassDef) and n.name == "SuccessionDiagram"]
     if len(classes) != 1: raise Unsupported("class SuccessionDiagram not found exactly once")
     defined = set()
     for spec in FUNCS:
         name = spec["name"]
+        if spec.get("group", 1) != group:
+            if spec.get("group", 1) < group: defined.add(name)
+            continue
         nodes = [n for n in classes[0].body if isinstance(n, ast.FunctionDef) and n.name == name]
         if len(nodes) != 1: raise Unsupported(f"method {name} not found exactly once")
         node = nodes[0]
@@ -560,6 +665,7 @@ def translate():
         fn.state = assigned_locals(node, spec["locs"])
         body = fn.block(node.body)
         sig = " ".join(f"({x} : {COQ_TY[t]})" for x, t in spec["args"])
+        if spec.get("tape"): sig = "(tape : list space) " + sig
         init = "".join(f"let {v} := {DFLT[spec['locs'][v]]} in " for v in fn.state)
         cname = "py_" + name.strip("_")
         parts.append(f"(* {SRC}: def {name}({', '.join(want_args)}) *)")
@@ -581,21 +687,21 @@ def translate():
     return "\n".join(parts)
 
 def main(argv):
-    out = os.path.join(OUTDIR, "PySrcCore.v")
     try:
-        text = translate()
+        texts = [(os.path.join(OUTDIR, f), translate(g)) for g, f in ((1, "PySrcCore.v"), (2, "PySrcCore2.v"))]
     except Unsupported as e:
         print("py2coq_core: UNSUPPORTED: " + str(e), file=sys.stderr)
         return 2
     if len(argv) > 1 and argv[1] == "--check":
-        same = os.path.exists(out) and open(out).read() == text
+        same = all(os.path.exists(o) and open(o).read() == t for o, t in texts)
         print("unchanged" if same else "CHANGED")
         return 0 if same else 1
-    if os.path.exists(out) and open(out).read() == text:
-        print("unchanged", os.path.normpath(out))
-    else:
-        open(out, "w").write(text)
-        print("wrote", os.path.normpath(out))
+    for o, t in texts:
+        if os.path.exists(o) and open(o).read() == t:
+            print("unchanged", os.path.normpath(o))
+        else:
+            open(o, "w").write(t)
+            print("wrote", os.path.normpath(o))
     return 0
 
 if __name__ == "__main__":
